@@ -12,10 +12,18 @@ LEAVES = ['bool', 'int', 'float', 'str', 'bytes', 'bytearray', 'uuid', 'decimal'
 TOKS = ['uuid', 'decimal', 'path', 'date', 'datetime', 'time', 'timedelta']
 HASHABLE_LEAVES = [l for l in LEAVES if l not in ('bytearray', 'any')]
 CONTEXTS = ['list', 'set', 'frozenset', 'deque', 'tuple2', 'vartuple', 'dictval', 'dictkey', 'defaultdict', 'ordered',
-            'opt', 'union', 'nt', 'td', 'tdopt', 'data', 'tagunion', 'autotagunion']
+            'opt', 'union', 'nt', 'td', 'tdopt', 'data', 'tagunion', 'autotagunion',
+            'listopt', 'dictvalopt', 'ddkey', 'odkey']
 RESERVED = {'o', 'cls', 'field', 'fields', 'i', 'e', 'v1', 'tp', 'result', 'config', 'hooks', 'exclude', 'self',
             'dict_factory', 'asdict', 'paths', 'k', 'v', 'skip_defaults', 'json_key', 'py_field', 'init_kwargs',
             'catch_all', 'field_to_parser', 'json_to_field', 'py_case', 'count', 'index', 'copy', 'field'}
+
+
+# strings: line endings, control characters, unicode planes, quoting, whitespace, look-alikes of other JSON/YAML/TOML scalars
+STR_ZOO = ['', 'a', 'hello world', 'Z', '+00:00', 'x"y\'z', 'line\nbreak', 'crlf\r\nline', 'lone\rcr', 'tab\there', '\n', ' lead', 'trail ', '  ',
+           'back\\slash', '\\n', '"""', "'''", 'é✓', '\U0001F600 astral', 'e\u0301 combining', '\u2028ls', 'nul\x00byte', 'bell\x07', '\x7f',
+           'True', 'true', 'null', 'None', '~', '1', '1.5', '-0', '1e3', '0x10', '2020-01-01', '2020-01-01T00:00:00Z', '12:30:00', 'yes', 'no',
+           '# not a comment', 'key: value', '[1, 2]', '{a: 1}', 'x' * 300, '- item', '%s %d {0}']
 
 
 class Gen:
@@ -23,6 +31,7 @@ class Gen:
         self.r = rng
         self.n = 0
         self.opts = opts or {}
+        self.used_sub = False
 
     # ---- names ----------------------------------------------------------
     def fresh(self):
@@ -39,22 +48,50 @@ class Gen:
                ''.join(r.choice(string.digits) for _ in range(r.choice([0, 0, 0, 1, 2])))
 
     def name(self):
-        """canonical snake_case by default; with opts['ext_names'] (a probability) a name from the wider
-        grammar  letter+ digit* ( _ letter+ digit* )*  - e.g. point2_x, utf8_s, a_b1, x"""
-        ext = self.r.random() < self.opts.get('ext_names', 0)
-        while True:
-            n = '_'.join(self.word(ext) for _ in range(self.r.choice([1, 2, 2, 3])))
-            if n in RESERVED or keyword.iskeyword(n) or keyword.issoftkeyword(n):
+        """Field-name grammars.  canonical: words [a-z]{2,}[0-9]* joined by single underscores (default);
+        opts['ext_names'] = probability of the wider LOWER-CASE grammar: words [a-z]+[0-9]* joined by runs of 1..4
+        underscores (point2_x, utf8_s, retry___count, x);  opts['wild_names'] = probability of a WILD identifier:
+        leading / trailing underscores, capitals inside (mixedCase, UPPER_x, _private, trailing_)."""
+        r = self.r
+        c = r.random()
+        wild = c < self.opts.get('wild_names', 0)
+        ext = wild or c < self.opts.get('wild_names', 0) + self.opts.get('ext_names', 0)
+        for _ in range(200):
+            k = r.choice([1, 2, 2, 3])
+            if ext:
+                ws = [self.word(True) for _ in range(k)]
+                n = ws[0]
+                for w in ws[1:]:
+                    n += '_' * r.choice([1, 1, 1, 2, 3, 4]) + w
+            else:
+                n = '_'.join(self.word() for _ in range(k))
+            if wild:
+                m = r.random()
+                if m < 0.3:
+                    n = '_' + n
+                elif m < 0.5:
+                    n = n + '_'
+                elif m < 0.8:
+                    i = r.randrange(len(n))
+                    n = n[:i] + n[i].upper() + n[i + 1:]
+                else:
+                    n = n.upper() if r.random() < 0.5 else n.title().replace('_', '')
+                    n = n[:1].lower() + n[1:] if r.random() < 0.5 else n
+            if n in RESERVED or keyword.iskeyword(n) or keyword.issoftkeyword(n) or not n.isidentifier():
+                continue
+            if n.startswith('__') or (n.startswith('_') and n[1:2].isdigit()):
                 continue
             if len(n) > 1 or ext:
                 return n
+        return 'fallback_name%d' % self.fresh()
 
     def names(self, k):
-        out = []
+        out, keys = [], set()
         while len(out) < k:
             n = self.name()
-            if n not in out:
-                out.append(n)
+            key = n.replace('_', '').lower()
+            if key not in keys:
+                keys.add(key); out.append(n)
         return out
 
     # ---- leaf types -------------------------------------------------------
@@ -178,6 +215,17 @@ class Gen:
             i = self.fresh()
             a, b = self.names(2)
             return {'t': 'td', 'id': i, 'name': 'D%d' % i, 'req': [[a, inner]], 'opt': [[b, {'t': 'int'}]]}
+        if ctx in ('listopt', 'dictvalopt'):
+            # element / value type Optional[inner]: None and real values side by side in one container
+            o = inner if inner['t'] in ('opt', 'none', 'any', 'union') else {'t': 'opt', 'e': inner}
+            if ctx == 'listopt':
+                return {'t': 'seq', 'k': 'list', 'e': o}
+            return {'t': 'dict', 'k': 'dict', 'kt': {'t': 'str'}, 'vt': o}
+        if ctx in ('ddkey', 'odkey'):
+            # every dict-like container x the leaf as KEY
+            if not self.key_type_ok(inner):
+                return None
+            return {'t': 'dict', 'k': 'defaultdict' if ctx == 'ddkey' else 'ordered', 'kt': inner, 'vt': {'t': 'int'}}
         if ctx == 'tdopt':
             # the leaf sits at a NON-required key (NotRequired / total=False), Optional where the type allows
             i = self.fresh()
@@ -293,6 +341,15 @@ class Gen:
         raise ValueError(k)
 
     def value(self, ty, depth=0):
+        v = self.value0(ty, depth)
+        # runtime type axis: an instance of a user SUBCLASS of the documented type (class Stamp(datetime), MyList(list) ...)
+        if self.opts.get('subclasses') and self.r.random() < self.opts['subclasses'] and isinstance(v, dict):
+            if v.get('v') in ('tok', 'seq', 'dict', 'str', 'int', 'float') and ty['t'] not in ('lit', 'enum', 'td', 'any', 'union', 'opt'):
+                v = dict(v); v['sub'] = True
+                self.used_sub = True
+        return v
+
+    def value0(self, ty, depth=0):
         r = self.r
         t = ty['t']
         if t == 'any': return self.scalar_any()
@@ -307,8 +364,7 @@ class Gen:
                 return {'v': 'float', 'x': r.choice(['nan', 'inf', '-inf'])}
             return {'v': 'float', 'x': x.hex()}
         if t == 'str':
-            return {'v': 'str', 'x': r.choice(['', 'a', 'hello world', 'Z', '+00:00', 'x"y\'z', 'line\nbreak', 'é✓',
-                                               'True', '1', '1.5', ''.join(r.choice(string.printable[:94]) for _ in range(r.randint(1, 12)))])}
+            return {'v': 'str', 'x': r.choice(STR_ZOO + [''.join(r.choice(string.printable[:94]) for _ in range(r.randint(1, 12)))])}
         if t in ('bytes', 'bytearray'):
             n = r.choice([0, 1, 2, 3, 10])
             return {'v': 'bytes', 'mut': t == 'bytearray', 'x': bytes(r.getrandbits(8) for _ in range(n)).hex()}
@@ -317,15 +373,16 @@ class Gen:
         if t == 'lit': return r.choice(ty['vs'])
         n = r.choice([0, 1, 2, 3]) if depth < 3 else r.choice([0, 1])
         if t == 'seq':
-            xs = [self.value(ty['e'], depth + 1) for _ in range(n)]
+            xs = self.elems(ty['e'], n, depth)
             if ty['k'] in ('set', 'frozenset'):
                 xs = self.distinct(xs)
             return {'v': 'seq', 'k': ty['k'], 'xs': xs}
         if t == 'tuple': return {'v': 'seq', 'k': 'tuple', 'xs': [self.value(e, depth + 1) for e in ty['es']]}
-        if t == 'vartuple': return {'v': 'seq', 'k': 'tuple', 'xs': [self.value(ty['e'], depth + 1) for _ in range(n)]}
+        if t == 'vartuple': return {'v': 'seq', 'k': 'tuple', 'xs': self.elems(ty['e'], n, depth)}
         if t == 'dict':
             ks = self.distinct([self.value(ty['kt'], depth + 1) for _ in range(n)])
-            out = {'v': 'dict', 'k': ty['k'], 'kvs': [[k, self.value(ty['vt'], depth + 1)] for k in ks]}
+            vals = self.elems(ty['vt'], len(ks), depth)
+            out = {'v': 'dict', 'k': ty['k'], 'kvs': [[k, v] for k, v in zip(ks, vals)]}
             if ty['k'] == 'defaultdict':
                 vt = ty['vt']
                 out['factory'] = {'int': 'int', 'str': 'str'}.get(vt['t']) or \
@@ -344,6 +401,24 @@ class Gen:
             return {'v': 'dict', 'k': 'dict', 'kvs': kvs}
         if t == 'data': return {'v': 'inst', 'id': ty['id'], 'xs': [self.value(f['ty'], depth + 1) for f in ty['fields']]}
         raise ValueError(ty)
+
+    def elems(self, et, n, depth):
+        """n element values of type et.  For Optional / Union element types the members are laid out in every order:
+        None (or a scalar member) FIRST and a complex member later, None in the middle, complex first."""
+        r = self.r
+        if et['t'] == 'opt' and n >= 1:
+            n = max(n, r.choice([2, 3]))
+            real = lambda: self.value(et['e'], depth + 1)
+            pat = r.choice(['NR', 'NRN', 'RNR', 'NNR', 'RN', 'RRN'])
+            return [({'v': 'none'} if ch == 'N' else real()) for ch in (pat * 2)[:n]]
+        if et['t'] == 'union' and n >= 1:
+            ms = [e for e in et['es']]
+            scal = [e for e in ms if e['t'] in ('none', 'int', 'str', 'float', 'bool')]
+            rest = [e for e in ms if e not in scal]
+            n = max(n, min(3, len(ms)))
+            order = (scal + rest) if r.random() < 0.6 else (rest + scal)
+            return [self.value(order[i % len(order)], depth + 1) for i in range(n)]
+        return [self.value(et, depth + 1) for _ in range(n)]
 
     @staticmethod
     def vkey(v):
